@@ -251,10 +251,14 @@ inductive Label where
   deriving Repr, DecidableEq
 
 /-- Deliver wake-ups: the parked transactions whose waiter channel was closed return from
-    `WaitForMark` (waiter id = transaction id). -/
-def wakeTxns (txns : List TxnSt) (wk : List Wakeup) : List TxnSt :=
-  txns.mapIdx (fun i x =>
-    if x.phase = .parked ∧ wk.any (fun k => k.waiter == i) then { x with phase := .active } else x)
+    `WaitForMark` (waiter id = transaction id = position in the table; `i` is the id of the head). -/
+def wakeFrom (i : Nat) (wk : List Wakeup) : List TxnSt → List TxnSt
+  | [] => []
+  | x :: xs =>
+    (if x.phase = .parked ∧ wk.any (fun k => k.waiter == i) then { x with phase := .active } else x)
+      :: wakeFrom (i + 1) wk xs
+
+def wakeTxns (txns : List TxnSt) (wk : List Wakeup) : List TxnSt := wakeFrom 0 wk txns
 
 /-- The timestamps handed out and not yet reported done (what the pipeline still owes). -/
 def Sys.allocatedNotDone (s : Sys) : List Nat :=
